@@ -58,6 +58,8 @@ func (p *PX) rememberedCounters(fr *pxFrame, lp *loopInfo, from *ssa.BasicBlock,
 			out[p.reg(fr, phi)] = true
 		}
 	}
+	// flags set in the same iteration (pxhavoc_flags.go)
+	p.rememberedFlags(fr, lp, pi, st, out)
 	if len(out) > 0 {
 		p.rememberedNow = out
 	}
